@@ -34,7 +34,7 @@ theorem seal_prefix12 (g v k rk : List Nat) (t : Nat) (dst nonce pt aad tmp : Li
     (htmp : tmp.length = 32) :
     ∃ s5 N, N ≤ 34 * (aad.length / 16) + 1400 ∧ Reach sealR 0 (sealState g v k rk t dst nonce pt aad tmp) 1499 s5 N ∧
       AfterPre (fun b => fmem "plaintext" false rk dst nonce pt aad b) rk nonce aad (nonce ++ [0, 0, 0, 1])
-        81604378624 94489280512 90194313216 s5 := by
+        81604378624 94489280512 90194313216 s5 ∧ s5.frame = (sealState g v k rk t dst nonce pt aad tmp).frame := by
   have e := fenv_of (sealState g v k rk t dst nonce pt aad tmp) "plaintext" false rk dst nonce pt aad tmp (seal_mem ..) (seal_syms ..)
     (by simp [sealState, mkState, lookup]; rfl) (by simp [sealState, mkState, lookup]; rfl) (by simp [sealState, mkState, lookup])
     (by simp [sealState, mkState, lookup]; rfl) (by simp [sealState, mkState, lookup]; rfl) (by simp [sealState, mkState, lookup])
